@@ -644,4 +644,147 @@ theorem timer_tr {c D s i s' o} (hB : 1 ≤ c.block) (hI : 1 ≤ c.idle)
   | blockSkip p d hf hl' ht htx => simpa [hf, hl'] using h
   | recv p d hf hch => simpa [hf] using h
 
+/-! ## The start of `AggregationLoop` (`Sys`, `sysStep`, `boot`) -/
+
+theorem sysRun_running (c : Cfg) : ∀ (ins : List In) (s : St),
+    sysRun c (.running s) ins = (.running (run c s ins).1, (run c s ins).2)
+  | [], _ => rfl
+  | i :: is, s => by
+    simp only [sysRun, sysStep, run, sysRun_running c is]
+
+theorem inv_enter (c : Cfg) (now : Nat) (chan : Bool) : Inv c (enter now chan) := by
+  simp [Inv, enter]
+
+theorem lower_enter (c : Cfg) (m now : Nat) (chan : Bool) : LowerNext c m (enter now chan) now := by
+  simp [LowerNext, enter]
+
+/-- a run that starts in the wait and is still in it: same deadline, nothing produced, the channel
+holds a notification iff it did before or one was sent, and time has not passed the deadline. -/
+theorem sysRun_still_waiting (c : Cfg) (wake : Nat) : ∀ (ins : List In) (now : Nat) (chan : Bool) (now' wake' : Nat) (chan' : Bool),
+    (sysRun c (.waiting now wake chan) ins).1 = .waiting now' wake' chan' →
+    wake' = wake ∧ (sysRun c (.waiting now wake chan) ins).2 = [] ∧ now ≤ now' ∧ (now ≤ wake → now' ≤ wake) ∧
+      (chan = true ∨ In.notify ∈ ins → chan' = true)
+  | [], now, chan, now', wake', chan', h => by
+    simp only [sysRun, Sys.waiting.injEq] at h
+    obtain ⟨h1, h2, h3⟩ := h
+    subst h1 h2 h3
+    simp [sysRun]
+  | .notify :: is, now, chan, now', wake', chan', h => by
+    simp only [sysRun, sysStep] at h ⊢
+    obtain ⟨a, b, d, e, f⟩ := sysRun_still_waiting c wake is now true now' wake' chan' h
+    exact ⟨a, by simpa using b, d, e, fun _ => f (Or.inl rfl)⟩
+  | .tick p d :: is, now, chan, now', wake', chan', h => by
+    simp only [sysRun, sysStep] at h ⊢
+    by_cases hw : now < wake
+    · simp only [hw, if_true] at h ⊢
+      obtain ⟨a, b, d', e, f⟩ := sysRun_still_waiting c wake is (now + 1) chan now' wake' chan' h
+      refine ⟨a, by simpa using b, by omega, fun _ => e (by omega), ?_⟩
+      intro hc
+      apply f
+      rcases hc with hc | hc
+      · exact Or.inl hc
+      · simp at hc; exact Or.inr hc
+    · simp only [hw, if_false] at h
+      rw [sysRun_running] at h
+      simp at h
+
+/-- every production of a run that starts in the wait is at or after the deadline of the wait, and the
+productions are spaced as in the loop proper. -/
+theorem sys_lower_run {c : Cfg} {m : Nat} (hmB : m ≤ c.block) (hmI : c.lazy = true → m ≤ c.idle) (wake : Nat) :
+    ∀ (ins : List In) (now : Nat) (chan : Bool), SpacedFrom m wake (sysRun c (.waiting now wake chan) ins).2
+  | [], _, _ => trivial
+  | .notify :: is, now, chan => by
+    simp only [sysRun, sysStep, List.nil_append]
+    exact sys_lower_run hmB hmI wake is now true
+  | .tick p d :: is, now, chan => by
+    simp only [sysRun, sysStep]
+    by_cases hw : now < wake
+    · simp only [hw, if_true, List.nil_append]
+      exact sys_lower_run hmB hmI wake is (now + 1) chan
+    · simp only [hw, if_false, List.nil_append]
+      rw [sysRun_running]
+      have h := lower_run hmB hmI is (enter now chan) now (lower_enter c m now chan)
+      cases hl : (run c (enter now chan) is).2 with
+      | nil => trivial
+      | cons q r =>
+        rw [hl] at h
+        exact ⟨by have := h.1; omega, h.2⟩
+
+theorem spacedFrom_ge (m : Nat) : ∀ (l : List Nat) (L : Nat), SpacedFrom m L l → ∀ q ∈ l, L ≤ q
+  | [], _, _, q, hq => by simp at hq
+  | a :: r, L, h, q, hq => by
+    simp only [List.mem_cons] at hq
+    rcases hq with e | hq
+    · subst e; exact h.1
+    · have := spacedFrom_ge m r (a + m) h.2 q hq
+      have := h.1
+      omega
+
+theorem spacedFrom_mono (m : Nat) : ∀ (l : List Nat) (L L' : Nat), L' ≤ L → SpacedFrom m L l → SpacedFrom m L' l
+  | [], _, _, _, _ => trivial
+  | _ :: _, _, _, hle, h => ⟨Nat.le_trans hle h.1, h.2⟩
+
+/-- spacing of a concatenation: the second list starts one spacing after the last element of the first. -/
+theorem spaced_append (m : Nat) : ∀ (a b : List Nat) (last : Nat), a.getLast? = some last →
+    Spaced m a → SpacedFrom m (last + m) b → Spaced m (a ++ b)
+  | [], _, _, h, _, _ => by simp at h
+  | [x], b, last, h, _, hb => by
+    simp at h
+    subst h
+    exact spaced_of_from m (x :: b) 0 ⟨Nat.zero_le _, hb⟩
+  | x :: y :: r, b, last, h, ha, hb => by
+    have h' : (y :: r).getLast? = some last := by simpa [List.getLast?_cons_cons] using h
+    exact ⟨ha.1, spaced_append m (y :: r) b last h' ha.2 hb⟩
+
+/-- a notification is in the channel when the wait ends: a production is due one block interval after
+the deadline of the wait. -/
+theorem sys_wake_due {c : Cfg} (hB : 1 ≤ c.block) (hI : 1 ≤ c.idle) (wake : Nat) :
+    ∀ (post : List In) (now : Nat), now ≤ wake →
+      wake + c.block < (sysRun c (.waiting now wake true) post).1.now →
+      ∃ q, q ∈ (sysRun c (.waiting now wake true) post).2 ∧ wake ≤ q ∧ q ≤ wake + c.block
+  | [], now, hn, hd => by
+    simp only [sysRun, Sys.now] at hd; omega
+  | .notify :: is, now, hn, hd => by
+    simp only [sysRun, sysStep, List.nil_append] at hd ⊢
+    exact sys_wake_due hB hI wake is now hn hd
+  | .tick p d :: is, now, hn, hd => by
+    simp only [sysRun, sysStep] at hd ⊢
+    by_cases hw : now < wake
+    · simp only [hw, if_true, List.nil_append] at hd ⊢
+      exact sys_wake_due hB hI wake is (now + 1) (by omega) hd
+    · simp only [hw, if_false, List.nil_append] at hd ⊢
+      have e : now = wake := by omega
+      subst e
+      rw [sysRun_running] at hd ⊢
+      simp only [Sys.now] at hd
+      have hwd : WakeDue c (now + c.block) (enter now true) :=
+        wake_of_pending_short (inv_enter c now true) (Or.inl rfl) (by simp [enter])
+      obtain ⟨q, hq, h1, h2⟩ := run_due c (WakeDue c (now + c.block)) _
+        (fun _ h => wake_now h)
+        (fun s i h ho => wake_tr hB hI h (step_tr c s i) ho)
+        is (enter now true) hwd hd
+      exact ⟨q, hq, h1, h2⟩
+
+/-- states of `Sys` reachable from a start satisfy the timer invariant once the loop proper runs -/
+def SysInv (c : Cfg) : Sys → Prop
+  | .waiting _ _ _ => True
+  | .running s => Inv c s
+
+theorem sysInv_run {c : Cfg} (hB : 1 ≤ c.block) (hI : 1 ≤ c.idle) : ∀ (ins : List In) (s : Sys), SysInv c s → SysInv c (sysRun c s ins).1
+  | [], _, h => h
+  | i :: is, .running s, h => by
+    simp only [sysRun, sysStep]
+    exact sysInv_run hB hI is _ (inv_step hB hI h i)
+  | .notify :: is, .waiting now wake chan, _ => by
+    simp only [sysRun, sysStep]
+    exact sysInv_run hB hI is _ trivial
+  | .tick p d :: is, .waiting now wake chan, _ => by
+    simp only [sysRun, sysStep]
+    by_cases hw : now < wake
+    · simp only [hw, if_true]; exact sysInv_run hB hI is _ trivial
+    · simp only [hw, if_false]; exact sysInv_run hB hI is _ (inv_enter c now chan)
+
+theorem boot_wake (c : Cfg) (ref t0 : Nat) : ∃ wake, boot c ref t0 = .waiting t0 wake false ∧ t0 ≤ wake ∧ ref + c.block ≤ wake :=
+  ⟨t0 + startDelay c ref t0, rfl, by omega, by unfold startDelay; omega⟩
+
 end Lazy
